@@ -10,7 +10,7 @@ from .ctx import Infeasible, PathEnd
 from .values import (
     BOOL, BYTES, INT, REAL, STR, Atom, AttrGetter, BoundMethod, Builtin, ClassRef, Closure, ExcClass, GenExp, Kind,
     ListOf, ModuleRef, ObjOf, Opaque, PyDict, PyList, Rec, SDict, Sentinel, SExc, SList, SObj, Sym, TypeRef,
-    Unsupported, is_concrete, kind_of, to_term, DictOf,
+    Unsupported, is_concrete, kind_of, to_term, DictOf, Alternatives,
 )
 
 
@@ -420,6 +420,10 @@ class Interp:
             if default is not KeyError:
                 return default
             self.unsupported(node, "attribute %s of opaque %s" % (attr, recv.tag))
+        if isinstance(recv, Sym) and isinstance(recv.kind, Atom):
+            h = self.pack.models.get("getattr:%s.%s" % (recv.kind.name, attr))
+            if h:
+                return h(self, recv)
         if isinstance(recv, Sym) and isinstance(recv.kind, Rec):
             if attr in recv.kind.fields:
                 return recv.kind.fields[attr].wrap(recv.kind.field_fn(attr)(recv.term))
@@ -559,7 +563,7 @@ class Interp:
         g = node.generators[0]
         src = self.eval(g.iter, env)
         out = {}
-        for item in self.iter_concrete(src, node):
+        for item in self.pack.for_items(self, src, node):
             e2 = Env(env.module, env, env.qualname, env.owner_cls)
             self.assign_target(g.target, item, e2)
             if all(self.branch(self.eval(c, e2), "compif") for c in g.ifs):
@@ -575,7 +579,7 @@ class Interp:
         g = node.generators[0]
         src = self.eval(g.iter, env)
         out = []
-        for item in self.iter_concrete(src, node):
+        for item in self.pack.for_items(self, src, node):
             e2 = Env(env.module, env, env.qualname, env.owner_cls)
             self.assign_target(g.target, item, e2)
             if all(self.branch(self.eval(c, e2), "compif") for c in g.ifs):
@@ -857,16 +861,27 @@ class Interp:
         for lv in c.modifies:
             self.havoc_lvalue(lv, env, c)
         outcomes = [("return", None)] + [("raise", e) for e in c.exsures]
-        if c.at_exit is not None:
-            c.at_exit(self, env)
         k = self.ctx.choose(len(outcomes), "outcome:%s" % c.name)
         kind, ename = outcomes[k]
+        if c.at_exit is not None:
+            c.at_exit(self, env, kind)
         self.spec_mode += 1
         try:
             if kind == "return":
                 result = None
                 if c.returns is not None:
                     result = c.returns.fresh(self.ctx, c.name + "#ret") if isinstance(c.returns, Kind) else c.returns(self, env)
+                if isinstance(result, Alternatives):
+                    # keep the candidates that the callee's postcondition does not refute outright, then fork
+                    keep = []
+                    for cand in result.options:
+                        env.extra["result"] = cand
+                        ts = [ops.truth(self.spec(s, env)) for s in c.ensures.values()]
+                        if not any(t is False for t in ts):
+                            keep.append(cand)
+                    if not keep:
+                        raise Infeasible()
+                    result = keep[self.ctx.choose(len(keep), "result:%s" % c.name)]
                 env.extra["result"] = result
                 self.ctx.ghost["ret_" + c.name] = result
                 for nm, s in c.ensures.items():
